@@ -220,6 +220,17 @@ for n, b in [("firstwins_int_offbyone_then_boundary_r1", "[OffByOne, Boundary], 
       stubs=ENV_STUBS, funcs=["Generator::{mutate_int,mutate_float,mutate_bytes,mutate_memo_index}"], cost=2)
 
 # ---------------------------------------------------------------------------------------------------
+# REACH — enabling recipes on the real generator (C12)
+for t in ["pop", "dup", "append", "appends", "setitem", "setitems", "additems", "dict", "list", "tuple", "frozenset", "pop_mark", "tuple1",
+          "tuple2", "tuple3", "reduce", "newobj", "newobj_ex", "build", "inst", "obj", "stack_global", "put", "binput", "long_binput",
+          "memoize", "binpersid", "readonly_buffer"]:
+    H("reach_" + t, "reach.rs", "REACH", ["C12", "C09"], "quick",
+      "%s: shortest enabling recipe from the empty stack, every step guarded by the real can_emit and executed by the real process_stack_ops "
+      "(concrete opcodes; EXT1 with the opt-in flag as the callable producer)" % t.upper(),
+      stubs=ENV_STUBS + ["hm_insert_forget / hs_insert_forget / so_clone_flat as in STEP"],
+      funcs=["Generator::can_emit", "Generator::process_stack_ops"], cost=2, thorough_only_for=["C09"])
+
+# ---------------------------------------------------------------------------------------------------
 # TABLE
 H("table_as_u8_matches_cpython", "table.rs", "TABLE", ["C04", "C05", "C12"], "quick", "all 68 opcode kinds (symbolic index)",
   funcs=["OpcodeKind::as_u8"])
